@@ -941,7 +941,11 @@ class Console:
             _rendered = Segment.apply_style(_rendered, style)
         lines = list(
             Segment.split_and_crop_lines(
-                _rendered, render_options.max_width, include_new_lines=False, pad=pad
+                _rendered,
+                render_options.max_width,
+                style=style,
+                include_new_lines=False,
+                pad=pad,
             )
         )
         return lines
